@@ -34,6 +34,10 @@ let model (fn : string) (args : int list) (d : coq_N list) : string =
   match fn with
   | "hzb" -> "ok:" ^ show_bool (has_zero_byte (word_le d))
   | "scan" -> show_res show_scan (get_start_code_positions d)
+  (* cases produced by the GOARCH=386 build of the harness: the transcription for uintSize = 4 (C14Scan32Model.v) *)
+  | "hzb32" -> "ok:" ^ show_bool (C14Scan32Model.has_zero_byte32 (word_le d))
+  | "scan32" -> show_res show_scan (C14Scan32Model.get_start_code_positions32 d)
+  | "b2s32" -> show_res hex_of_bytes (C14Scan32Model.to_nalu_sample32 d)
   | "b2s" -> show_res hex_of_bytes (to_nalu_sample d)
   | "s2b" -> show_res hex_of_bytes (to_byte_stream d)
   | "gnfs" -> show_res show_list (get_nalus_from_sample d)
@@ -77,8 +81,8 @@ let theorem_stream (fn : string) (args : int list) (d : coq_N list) : string opt
   let us = Rg.unstream d in
   let ns = L.map snd us in
   match fn with
-  | "scan" -> let e = Sp.expected_scs Z0 us in Some ("ok:" ^ show_scan (e, Sp.min_sc_len e))
-  | "b2s" -> if Rg.fit_units us then Some ("ok:" ^ hex_of_bytes (Sp.sample ns)) else None
+  | "scan" | "scan32" -> let e = Sp.expected_scs Z0 us in Some ("ok:" ^ show_scan (e, Sp.min_sc_len e))
+  | "b2s" | "b2s32" -> if Rg.fit_units us then Some ("ok:" ^ hex_of_bytes (Sp.sample ns)) else None
   | "enb" -> Some ("ok:" ^ show_list ns)
   | "avc_gfv" -> Some ("ok:" ^ hex_of_bytes (Sp.first_video Sp.avc_type avc_is_video ns))
   | "avc_gpsb" ->
@@ -124,8 +128,8 @@ let theorem_sample (fn : string) (args : int list) (s : coq_N list) : string opt
 
 let theorem (fn : string) (args : int list) (d : coq_N list) : string option =
   match fn with
-  | "scan" | "b2s" | "enb" | "avc_gfv" | "avc_gpsb" | "avc_enot" | "hevc_gpsb" | "hevc_enot" -> theorem_stream fn args d
-  | "hzb" -> None
+  | "scan" | "b2s" | "scan32" | "b2s32" | "enb" | "avc_gfv" | "avc_gpsb" | "avc_enot" | "hevc_gpsb" | "hevc_enot" -> theorem_stream fn args d
+  | "hzb" | "hzb32" -> None
   | _ -> theorem_sample fn args d
 
 let () =
